@@ -82,7 +82,7 @@ static vj::value handle(const vj::value& c) {
         auto scale = [&](auto v) -> vj::value {
             auto p = project1d(v); if (!p["ok"].as_bool()) return p;
             double den = (double)g["den"].as_int(); vj::value el = vj::value::array();
-            for (size_t i = 0; i < p["elems"].size(); i++) { double x = p["elems"][i].as_dbl() * den; double rr = std::nearbyint(x); el.push((long)(std::fabs(x - rr) < 1e-6 * (1 + std::fabs(rr)) ? rr : 999999999)); }
+            for (size_t i = 0; i < p["elems"].size(); i++) { double x = elem_to_double(p["elems"][i]) * den; double rr = std::nearbyint(x); el.push((long)(std::fabs(x - rr) < 1e-6 * (1 + std::fabs(rr)) ? rr : 999999999)); }
             p.set("elems", el); return p; };
         if (g["endpoint"].as_bool()) return scale(view::linspace((double)g["start"].as_int(), (double)g["stop"].as_int(), (size_t)g["num"].as_int(), nm::True, nm::False, nm::float64));
         return scale(view::linspace((double)g["start"].as_int(), (double)g["stop"].as_int(), (size_t)g["num"].as_int(), nm::False, nm::False, nm::float64));
